@@ -31,7 +31,7 @@ def deco(f):
 
 KINDS = ['assign', 'print', 'print2', 'expr', 'printexpr', 'none', 'multi', 'compound', 'def', 'semicolon']
 # the richer statement grammar of the C01 program generator (C01, C18, C19, C20)
-MORE_KINDS = ['augassign', 'for', 'while', 'with', 'try', 'decodef', 'class', 'literal_comment', 'triple', 'triple_unprefixed', 'triple_blank', 'triple_trailing_ws', 'triple_late_unprefixed',
+MORE_KINDS = ['await_expr', 'augassign', 'for', 'while', 'with', 'try', 'decodef', 'class', 'literal_comment', 'triple', 'triple_unprefixed', 'triple_blank', 'triple_trailing_ws', 'triple_late_unprefixed',
               'import', 'comment', 'async_await', 'async_for', 'async_with']
 ALL_KINDS = KINDS + MORE_KINDS
 
@@ -135,6 +135,12 @@ class Stmt:
         elif kind == 'async_await':
             self.lines = ['async def co%d():' % k, '    return t(%d)' % k, 'aw%d = await co%d()' % (k, k)]
             self.starts = [0, 2]
+        elif kind == 'await_expr':
+            # the value of an awaited expression is echoed like any other expression value
+            self.lines = ['async def cx%d():' % k, '    return t(%d) + 2000' % k, 'await cx%d()' % k]
+            self.starts = [0, 2]
+            self.is_expr = True
+            self.val = str(k + 2000)
         elif kind == 'async_for':
             self.lines = ['async def ag%d():' % k, '    yield t(%d)' % k, 'async for z%d in ag%d():' % (k, k), "    print('ag%d', z%d)" % (k, k)]
             self.starts = [0, 2]
